@@ -22,7 +22,8 @@ func Harness_C20_ops() {
 	verifNameObject("server.registry", s.serviceProviders)
 	// contents (put through the store itself; set-up events before verifOp are not part of a trace)
 	cookie := "session-id"
-	if verifChoose("store.populated", 2) == 1 {
+	populated := verifChoose("store.populated", 3)
+	if populated >= 1 {
 		_ = ms.Put("/users/alice", &User{Name: "alice"})
 		_ = ms.Put("/services/svc", &Service{Name: "svc", Metadata: *verifSPMetadata("https://sp.example.com/metadata")})
 		registered := verifSPMetadata("https://sp.example.com/metadata")
@@ -31,6 +32,11 @@ func Harness_C20_ops() {
 		verifNameHeapObject("registry.descriptor", registered)
 		_ = ms.Put("/shortcuts/sc", &Shortcut{Name: "sc", ServiceProviderID: "https://sp.example.com/metadata"})
 		_ = ms.Put("/sessions/"+cookie, &saml.Session{ID: cookie, NameID: "alice", ExpireTime: saml.TimeNow().Add(sessionMaxAge)})
+		if populated == 2 {
+			// the state after two service names shared one entity ID and one of them was deleted:
+			// the service is still stored, its entity is no longer registered
+			delete(s.serviceProviders, "https://sp.example.com/metadata")
+		}
 	}
 	keys := []string{"/users/alice", "/services/svc", "sc", "svc", "alice", "https://sp.example.com/metadata", "absent"}
 	key := keys[verifChoose("key", len(keys))]
